@@ -70,6 +70,7 @@ func TestC18Exhaustive(t *testing.T) {
 	u := h.Pick(3, 4)        // universe {0..u-1}
 	maxArgs := h.Pick(3, 4)  // item lists up to this length
 	maxInter := h.Pick(3, 4) // Intersect argument lists up to this length
+	longInter := h.Pick(12, 20)
 	vals := setValues(u)
 	lists := argLists(u, maxArgs)
 	slot := h.Slot()
@@ -86,10 +87,14 @@ func TestC18Exhaustive(t *testing.T) {
 	}
 	for _, kind = range append([]string{""}, elemKinds...) {
 		exhaustiveOne(one, vals, lists, maxInter)
+		exhaustiveLongIntersect(one, vals, maxInter+1, longInter, kind == "")
+		if isByteKind(kind) {
+			exhaustiveBytes(one, h.Thorough())
+		}
 	}
 	if !h.Failed() {
 		h.Exhaustive()
-		h.Note("universe {0..%d}: %d set values (nil + %d subsets), item lists up to length %d (%d lists), Intersect argument lists up to length %d; all of it for Set[int] and for each of the element kinds %v", u-1, len(vals), len(vals)-1, maxArgs, len(lists), maxInter, elemKinds)
+		h.Note("universe {0..%d}: %d set values (nil + %d subsets), item lists up to length %d (%d lists), Intersect argument lists up to length %d, and of %d..%d operands that are all the same value but one (every pair of values, the odd one at every position for Set[int], first and last for the other kinds); all of it for Set[int] and for each of the element kinds %v; for u8 and i8 also the operand pairs built from runs of 0, 1, 127..129, 255 and 256 consecutive values and their complements in the whole type", u-1, len(vals), len(vals)-1, maxArgs, len(lists), maxInter, maxInter+1, longInter, elemKinds)
 	}
 }
 
@@ -166,13 +171,86 @@ func exhaustiveOne(one func(Case), vals, lists [][]int, maxInter int) {
 	one(Case{Init: [][]int{}, Ops: []Op{{K: "values", D: 0, B: 1}}}) // nil map argument
 }
 
+// exhaustiveLongIntersect: Intersect with lo..hi operands.  All operands hold
+// the value s except the one at position k, which holds u: every ordered pair
+// of values; every position for Set[int], the first and the last position for
+// the other element kinds.
+func exhaustiveLongIntersect(one func(Case), vals [][]int, lo, hi int, everyPos bool) {
+	for l := lo; l <= hi; l++ {
+		for k := 0; k < l; k++ {
+			if !everyPos && k != 0 && k != l-1 {
+				continue
+			}
+			ss := make([]int, l)
+			ss[k] = 1
+			for _, s := range vals {
+				for _, u := range vals {
+					one(Case{Init: [][]int{s, u}, Ops: []Op{{K: "intersect", D: 3, S: ss}}})
+				}
+			}
+		}
+	}
+}
+
+// exhaustiveBytes is the part of the enumeration that needs an element type
+// with few values (Set[uint8], Set[int8]): operands that hold most or all
+// values of the type.  s is a run of n consecutive values; the other operand
+// is its complement in the type (the two partition all 256 values), the
+// complement less one value, the complement plus one value of s, or s itself.
+func exhaustiveBytes(one func(Case), thorough bool) {
+	los, ns := []int{0, 100, 255}, []int{0, 1, 127, 128, 129, 255, 256}
+	if thorough {
+		los, ns = []int{0, 1, 100, 127, 128, 200, 255}, []int{0, 1, 2, 3, 64, 127, 128, 129, 192, 253, 254, 255, 256}
+	}
+	for _, n := range ns {
+		for _, lo := range los {
+			s := span(lo, n, 256)
+			co := complOf(s, 256)
+			ts := [][]int{co, s}
+			if len(co) > 0 {
+				ts = append(ts, co[1:])
+			}
+			if len(s) > 0 {
+				ts = append(ts, append([]int{s[len(s)/2]}, co...))
+			}
+			for _, u := range ts {
+				for _, k := range []string{"intersects", "issubset", "equals", "addall", "removeall"} {
+					one(Case{Init: [][]int{s, u}, Ops: []Op{{K: k, D: 0, S: []int{1}}}})
+					one(Case{Init: [][]int{s, u}, Ops: []Op{{K: k, D: 1, S: []int{0}}}})
+				}
+				one(Case{Init: [][]int{s, u}, Ops: []Op{{K: "intersect", D: 3, S: []int{0, 1}}}})
+				one(Case{Init: [][]int{s, u}, Ops: []Op{{K: "intersect", D: 3, S: []int{1, 0}}}})
+				one(Case{Init: [][]int{s, u}, Ops: []Op{{K: "intersect", D: 0, S: []int{1, 0, 1}}}})
+				for _, k := range []string{"hasall", "hasany", "add", "remove"} {
+					one(Case{Init: [][]int{s}, Ops: []Op{{K: k, D: 0, A: u}}})
+				}
+			}
+			one(Case{Init: [][]int{s}, Ops: []Op{{K: "compl", D: 1, S: []int{0}}}})
+			one(Case{Init: [][]int{s}, Ops: []Op{{K: "compl", D: 0, S: []int{0}}}})
+			for _, k := range []string{"clone", "keysv", "rangev"} {
+				one(Case{Init: [][]int{s}, Ops: []Op{{K: k, D: 1, S: []int{0}}}})
+			}
+			for _, k := range []string{"new", "keys", "values", "range"} {
+				one(Case{Init: [][]int{}, Ops: []Op{{K: k, D: 0, A: s}}})
+			}
+			drain := Case{Init: [][]int{s}}
+			for i := 0; i <= len(s); i++ {
+				drain.Ops = append(drain.Ops, Op{K: "pop", D: 0})
+			}
+			if lo == 0 {
+				one(drain)
+			}
+		}
+	}
+}
+
 // ---------------------------------------------------------------------------
 // rapid history leg
 
 var histKinds = []string{
 	"add", "add", "add", "addall", "addall", "addall", "remove", "remove", "removeall", "removeall",
 	"pop", "pop", "clear", "nanclear", "setnil", "clone", "clone", "new", "intersect", "intersect", "intersect",
-	"keysv", "keys", "values", "range", "rangev",
+	"keysv", "keys", "values", "range", "rangev", "compl",
 	"intersects", "intersects", "issubset", "issubset", "issubset", "equals", "equals", "hasall", "hasall", "hasany", "hasany",
 }
 
@@ -223,14 +301,27 @@ func genOp(t *rapid.T) Op {
 		if op.K == "range" {
 			op.B = rapid.IntRange(0, 1).Draw(t, "singleUse")
 		}
-	case "addall", "removeall", "clone", "keysv", "rangev", "intersects", "issubset", "equals":
+	case "addall", "removeall", "clone", "keysv", "rangev", "intersects", "issubset", "equals", "compl":
 		op.S = []int{genVar(t, "s")}
 	case "nanclear":
 		op.B = rapid.IntRange(0, 2).Draw(t, "nans")
 	case "intersect":
 		n := rapid.IntRange(0, 4).Draw(t, "nsets")
+		few := []int{0, 1, 2, 3}
+		if rapid.IntRange(0, 4).Draw(t, "manySets") == 0 {
+			// a long argument list; its first part is drawn from one or two of the
+			// variables only, so that a member all of them hold can be missing from
+			// an operand far down the list
+			n = rapid.IntRange(5, 12).Draw(t, "nsetsMany")
+			few = []int{genVar(t, "few0"), genVar(t, "few1")}
+		}
+		head := rapid.IntRange(0, n).Draw(t, "head")
 		for i := 0; i < n; i++ {
-			op.S = append(op.S, genVar(t, "s"))
+			if i < head {
+				op.S = append(op.S, rapid.SampledFrom(few).Draw(t, "s"))
+			} else {
+				op.S = append(op.S, genVar(t, "s"))
+			}
 		}
 	}
 	return op
@@ -278,7 +369,61 @@ func genHist(t *rapid.T) Case {
 		op := Op{K: "nanclear", D: genVar(t, "nanVar"), B: rapid.IntRange(0, 2).Draw(t, "nans")}
 		c.Ops = append(c.Ops[:i], append([]Op{op}, c.Ops[i:]...)...)
 	}
+	if isByteKind(c.Elem) {
+		genBytes(t, &c)
+	}
 	return c
+}
+
+// genBytes adds what only the 1-byte kinds can have: sets that hold most or
+// all values of their type, and operand pairs that partition the type.
+func genBytes(t *rapid.T, c *Case) {
+	genSpan := func(label string) []int {
+		n := rapid.SampledFrom([]int{-1, 1, 2, 127, 128, 129, 254, 255, 256}).Draw(t, label+"N")
+		if n < 0 {
+			n = rapid.IntRange(0, 256).Draw(t, label+"AnyN")
+		}
+		return span(rapid.IntRange(0, 255).Draw(t, label+"Lo"), n, 256)
+	}
+	for i := range c.Init {
+		if rapid.IntRange(0, 5).Draw(t, "bigInit") == 0 {
+			c.Init[i] = genSpan("init")
+		}
+	}
+	var itemOps []int
+	for i, op := range c.Ops {
+		switch op.K {
+		case "add", "remove", "hasall", "hasany", "new", "keys", "values", "range":
+			itemOps = append(itemOps, i)
+		}
+	}
+	if len(itemOps) > 0 {
+		for k := rapid.IntRange(0, 2).Draw(t, "bigLists"); k > 0; k-- {
+			c.Ops[rapid.SampledFrom(itemOps).Draw(t, "bigListAt")].A = genSpan("items")
+		}
+	}
+	// var y becomes the complement of var x (optionally less or plus one value),
+	// then the two meet in a binary operation in both operand orders
+	if rapid.IntRange(0, 3).Draw(t, "partition") > 0 {
+		x := rapid.IntRange(0, 3).Draw(t, "px")
+		y := (x + rapid.IntRange(1, 3).Draw(t, "pdy")) % 4
+		grp := []Op{{K: "compl", D: y, S: []int{x}}}
+		switch e := rapid.IntRange(0, 255).Draw(t, "pe"); rapid.IntRange(0, 3).Draw(t, "near") {
+		case 0:
+			grp = append(grp, Op{K: "remove", D: y, A: []int{e}})
+		case 1:
+			grp = append(grp, Op{K: "add", D: y, A: []int{e}})
+		}
+		for _, o := range [][2]int{{x, y}, {y, x}} {
+			if k := rapid.SampledFrom(binaryKinds).Draw(t, "pk"); k == "intersect" {
+				grp = append(grp, Op{K: k, D: 3, S: []int{o[0], o[1]}})
+			} else {
+				grp = append(grp, Op{K: k, D: o[0], S: []int{o[1]}})
+			}
+		}
+		i := rapid.IntRange(0, len(c.Ops)).Draw(t, "ppos")
+		c.Ops = append(c.Ops[:i:i], append(grp, c.Ops[i:]...)...)
+	}
 }
 
 func TestC18Hist(t *testing.T) {
@@ -292,6 +437,13 @@ func TestC18Hist(t *testing.T) {
 // and back (tableDom panics on a clash), and 0 onto the zero value.
 func TestDoms(t *testing.T) {
 	for _, k := range elemKinds {
+		if isByteKind(k) {
+			c := Case{Init: [][]int{span(0, 256, 256), {0, 127, 128, 255}}, Ops: []Op{{K: "compl", D: 2, S: []int{1}}, {K: "clone", D: 3, S: []int{0}}, {K: "pop", D: 0}, {K: "add", D: 1, A: []int{3, 4, 5}}}, Elem: k}
+			if msg := vk.Guard(func() string { return runSet(c, &vk.Obs{}) }); msg != "" {
+				t.Fatalf("kind %s: %s", k, msg)
+			}
+			continue
+		}
 		c := Case{Init: [][]int{{domLo, -1, 0, 1, domHi - 1}}, Ops: []Op{{K: "nanclear", D: 0}, {K: "add", D: 1, A: []int{3, 4, 5}}}, Elem: k}
 		if msg := vk.Guard(func() string { return runSet(c, &vk.Obs{}) }); msg != "" {
 			t.Fatalf("kind %s: %s", k, msg)
@@ -304,6 +456,15 @@ func TestDoms(t *testing.T) {
 	roundTrip(t, ptrDom())
 	roundTrip(t, anyDom())
 	roundTrip(t, f64Dom())
+	for x := 0; x < 256; x++ {
+		u, i := u8Dom(), i8Dom()
+		if got, ok := u.val(u.of(x)); !ok || got != x || int(u.of(x)) != x {
+			t.Fatalf("kind u8: %d -> %d -> %d", x, u.of(x), got)
+		}
+		if got, ok := i.val(i.of(x)); !ok || got != x || uint8(i.of(x)) != uint8(x) {
+			t.Fatalf("kind i8: %d -> %d -> %d", x, i.of(x), got)
+		}
+	}
 }
 
 func roundTrip[T comparable](t *testing.T, d *dom[T]) {
